@@ -265,7 +265,7 @@ class C15(Property):
             'range pair that overlaps/touches/nests; distinct by case hash')
 
     def budget(self, tier):
-        return 40000 if tier == 'quick' else 1500000
+        return 100000 if tier == 'quick' else 1500000
 
     def explicit_cases(self, ctx):
         maxlen = 5 if ctx.tier == 'quick' else 7
